@@ -8,6 +8,8 @@ dedicated ICT line.  One line fault; four variants that differ only in the ICT /
   ctrl-repair    the main controller is under manual repair     -> >= manual sectioning time
   sensor-cut     the ICT line to the faulted line's sensor out  -> >= manual sectioning time
   switch-cut     the ICT line to an intelligent switch of the faulted section's boundary out -> >= T
+  overlap        as sensor-cut, and a second ICT line (on the redundant backbone) fails at the same time and is
+                 repaired before the power fault: the sensor is still cut off                      -> >= T
 """
 import random
 from fractions import Fraction
@@ -44,7 +46,7 @@ def gen(rng, n):
         fl = rng.randrange(1, nl) if nl > 1 else 0
         dt = rng.choice([F(1, 2), F(1, 4)])
         cases.append({"kind": "timing", "spec": spec, "devices": devices, "fault": [rng.randint(2, 4), f"F0L{fl}", "5"], "dt": str(dt),
-                      "variants": ["healthy", "ctrl-repair", "sensor-cut", "switch-cut"]})
+                      "variants": ["healthy", "ctrl-repair", "sensor-cut", "switch-cut", "overlap"]})
     return cases
 
 
@@ -76,6 +78,8 @@ def run_variant(case, variant):
     spec = case["spec"]
     dt = F(case["dt"]); T = F(spec["ctrl"]["T"])
     k0, lname, rep = case["fault"]
+    if variant == "overlap":
+        k0 = max(k0, 4)
     n_inc = k0 + int((T + 2) / dt) + 4
     ps = net.build(spec)
     sim = Simulation(ps, random_seed=0)
@@ -84,8 +88,9 @@ def run_variant(case, variant):
     faulted = ps.get_comp(lname)
     devices = case["devices"]
     cut = None
-    if variant == "sensor-cut":
+    if variant in ("sensor-cut", "overlap"):
         cut = devices.index(f"S{lname}")
+
     elif variant == "switch-cut":
         sw = [x for x in faulted.section.switches if x in ps.disconnectors]
         if not sw:
@@ -101,6 +106,10 @@ def run_variant(case, variant):
             il = ps.get_comp(f"IL{cut}")
             il.repair_time_dist = net.FixedDist(F(100))
             il.fail(curr_time - prev_time)
+            if variant == "overlap":       # a backbone line fails together with it and is back in service before the power fault
+                ring = ps.get_comp(f"IL{len(spec['ctrl']['ict']['lines']) - 1}")
+                ring.repair_time_dist = net.FixedDist(dt)
+                ring.fail(curr_time - prev_time)
         if k == k0:
             faulted.repair_time_dist = net.FixedDist(F(rep))
             faulted.fail(curr_time - prev_time)
